@@ -59,7 +59,7 @@ func (eng) Rule(mode string) string {
 		"loop: real processEvents + sendOperatorEvent + operator cluster, scripted ticker and source reads, key-event batch 1-3, operator batch 2-6 without time-out flush, 1-3 recording operators, ticks interleaved with reads of increasing timestamps; watermark values taken when the batch is delivered. " +
 		"run: real SourceRunner (Start/HandleDeploy/HandleAssignSplits) reading a scripted source to its end through a slow scripted KeyEventBatch, 1-4 recording operators. " +
 		"reg: real TimerRegistry on a real DKV (memory fs), 0-4 configured runners, random interleavings of AdvanceWatermark (known / unknown senders, regressing, nil, pre-epoch, zero-time watermarks) and SetTimer. " +
-		"op: real Operator with a scripted recording handler, batch size 1-3, keyed events carrying timers, watermark messages from several senders and SourceComplete of some runners (one always stays active) after which the others go on reporting. " +
+		"op: real Operator with a scripted recording handler, batch size 1-3, keyed events carrying timers, watermark messages from several senders and SourceComplete of some runners (one always stays active) after which the others go on reporting, and redeploys of the live operator (HandleDeploy again, mostly the same runners, empty batch) followed by events before the new deployment's first watermark. " +
 		"Non-trivial: the history contains at least two watermark observations and (reg/op) at least two distinct senders or a fired timer; distinct by hash of the case."
 }
 
@@ -98,6 +98,7 @@ type opJ struct {
 	Key    int    `json:"key,omitempty"`
 	ID     int    `json:"id,omitempty"`
 	Timers []tsJ  `json:"timers,omitempty"`
+	IDs    []int   `json:"ids,omitempty"` // dp: the redeployment's source runner ids (absent = unchanged)
 	Raws   [][]evJ `json:"raws,omitempty"` // run: one ReadEvents batch; each raw event keys into these events
 }
 
@@ -335,6 +336,7 @@ func genReg(r *hx.Rand, i int) *hx.Case {
 
 func genOp(r *hx.Rand, i int) *hx.Case {
 	ids := genIDs(r)
+	ids0 := append([]int{}, ids...)
 	n := r.Range(1, 22)
 	base := int64(r.Intn(3)) * int64(r.Intn(1000000))
 	spread := r.Range(3, 30)
@@ -346,6 +348,40 @@ func genOp(r *hx.Rand, i int) *hx.Case {
 		active[x] = true
 	}
 	for k := 0; k < n; k++ {
+		// redeploy of the live operator (recovery / new assembly): only with an empty batch (batch size 1, or right
+		// after a SourceComplete which flushes it); mostly the same runners; often followed by events BEFORE the new
+		// deployment's first watermark message
+		if r.Chance(1, 9) && (m == 1 || len(active) >= 2) {
+			if m > 1 {
+				var act []int
+				for x := range active {
+					act = append(act, x)
+				}
+				sort.Ints(act)
+				ops = append(ops, hx.Op(opJ{K: "sc", S: hx.Pick(r, act)}))
+			}
+			if r.Chance(1, 4) {
+				ids = genIDs(r)
+			}
+			ops = append(ops, hx.Op(opJ{K: "dp", IDs: append([]int{}, ids...)}))
+			active = map[int]bool{}
+			for _, x := range ids {
+				active[x] = true
+			}
+			ne := r.Intn(3)
+			for j := 0; j < ne; j++ {
+				id++
+				key := r.Intn(7)
+				timers := []tsJ{}
+				for q := r.Intn(3); q > 0; q-- {
+					t := genTimer(r, base, spread)
+					t.N = t.N - t.N%8 + int32(key)
+					timers = append(timers, t)
+				}
+				ops = append(ops, hx.Op(opJ{K: "ev", S: genSender(r, ids), ID: id, Key: key, Timers: timers}))
+			}
+			continue
+		}
 		// a runner finishes (SourceComplete) while at least one other configured runner stays active - otherwise
 		// the operator stops itself; the others go on reporting
 		if len(active) >= 2 && r.Chance(1, 7) {
@@ -382,7 +418,7 @@ func genOp(r *hx.Rand, i int) *hx.Case {
 			ops = append(ops, hx.Op(opJ{K: "wm", S: genSender(r, ids), Ts: &t}))
 		}
 	}
-	return &hx.Case{Name: fmt.Sprintf("op-%d", i), Params: map[string]any{"mode": "c11", "kind": "op", "ids": ids, "m": m}, Ops: ops}
+	return &hx.Case{Name: fmt.Sprintf("op-%d", i), Params: map[string]any{"mode": "c11", "kind": "op", "ids": ids0, "m": m}, Ops: ops}
 }
 
 func genLoop(r *hx.Rand, i int) *hx.Case {
@@ -395,9 +431,17 @@ func genLoop(r *hx.Rand, i int) *hx.Case {
 	cur := base
 	id := 0
 	var ops []json.RawMessage
+	ops = append(ops, hx.Op(opJ{K: "as"})) // the initial split assignment
 	for k := 0; k < n; k++ {
 		if r.Chance(2, 5) {
 			ops = append(ops, hx.Op(opJ{K: "tk"}))
+			continue
+		}
+		if r.Chance(1, 6) { // further splits are handed to the running runner (discovery / rebalancing), often right before a tick
+			ops = append(ops, hx.Op(opJ{K: "as"}))
+			if r.Chance(1, 2) {
+				ops = append(ops, hx.Op(opJ{K: "tk"}))
+			}
 			continue
 		}
 		nraw := 1
@@ -872,55 +916,63 @@ func execRun(c *hx.Case, ops []opJ) (*hx.Result, error) {
 		return nil, err
 	}
 	// Watermarks come from the runner's 200 ms wall-clock ticker.  Wait for a quiescent snapshot: every keyed
-	// event delivered, every operator's stream ends with a watermark, every operator saw the same number of them.
-	deadline := time.Now().Add(15 * time.Second)
+	// event delivered, every operator's stream ends with a watermark, every operator saw the same number (> minW) of them.
 	streams := make([]string, nops)
 	var obs []any
 	nw := 0
-	for {
-		total, ok := 0, true
-		counts := make([]int, nops)
-		for _, rc := range order {
-			rc.mu.Lock()
-		}
-		for i, rc := range order {
-			for _, e := range rc.raw {
-				if strings.HasPrefix(e, "K") {
-					total++
-				} else if strings.HasPrefix(e, "W") {
-					counts[i]++
+	snapshot := func(minW int) bool {
+		deadline := time.Now().Add(15 * time.Second)
+		for {
+			total, ok := 0, true
+			counts := make([]int, nops)
+			for _, rc := range order {
+				rc.mu.Lock()
+			}
+			for i, rc := range order {
+				for _, e := range rc.raw {
+					if strings.HasPrefix(e, "K") {
+						total++
+					} else if strings.HasPrefix(e, "W") {
+						counts[i]++
+					}
+				}
+				if len(rc.raw) == 0 || !strings.HasPrefix(rc.raw[len(rc.raw)-1], "W") || counts[i] != counts[0] || counts[i] <= minW {
+					ok = false
 				}
 			}
-			if len(rc.raw) == 0 || !strings.HasPrefix(rc.raw[len(rc.raw)-1], "W") || counts[i] != counts[0] {
-				ok = false
+			done := ok && total == nk
+			late := time.Now().After(deadline)
+			if done || late {
+				obs = nil
+				for i, rc := range order {
+					streams[i] = hx.CoqList(rc.events, "sev")
+					obs = append(obs, strings.Join(rc.raw, " "))
+				}
+				nw = counts[0]
 			}
-		}
-		if ok && total == nk {
-			obs = nil
-			for i, rc := range order {
-				streams[i] = hx.CoqList(rc.events, "sev")
-				obs = append(obs, strings.Join(rc.raw, " "))
-			}
-			nw = counts[0]
-		}
-		for _, rc := range order {
-			rc.mu.Unlock()
-		}
-		if ok && total == nk {
-			break
-		}
-		if time.Now().After(deadline) {
-			// report what was received: the check flags missing events / watermarks
-			for i, rc := range order {
-				rc.mu.Lock()
-				streams[i] = hx.CoqList(rc.events, "sev")
-				obs = append(obs, strings.Join(rc.raw, " "))
+			for _, rc := range order {
 				rc.mu.Unlock()
 			}
-			tags["no_quiescent_snapshot"] = true
-			break
+			if done {
+				return true
+			}
+			if late {
+				tags["no_quiescent_snapshot"] = true // what was received is reported: the check flags missing events / watermarks
+				return false
+			}
+			time.Sleep(500 * time.Microsecond)
 		}
-		time.Sleep(500 * time.Microsecond)
+	}
+	if snapshot(0) {
+		// a further split assignment on the running runner (split discovery / rebalancing), then the next tick(s):
+		// the runner's watermark must not fall back
+		first := nw
+		if err := sr.HandleAssignSplits([]*workerpb.SourceSplit{{SplitId: "s1", SourceId: "src"}}); err != nil {
+			return nil, err
+		}
+		tags["reassign_after_watermark"] = true
+		// the assignment is queued for the event loop; two more ticks guarantee one stamped after it was handled
+		snapshot(first + 1)
 	}
 	sr.Stop()
 	select {
@@ -973,7 +1025,28 @@ func execLoop(c *hx.Case, ops []opJ) (*hx.Result, error) {
 	ks := partitioning.NewKeySpace(kgc, nops)
 	tags := map[string]bool{fmt.Sprintf("nops_%d", nops): true, fmt.Sprintf("opbatch_%d", ob): true, fmt.Sprintf("keybatch_%d", kb): true}
 	var terms []string
-	placeholders, nw, nk := 0, 0, 0
+	placeholders, nw, nk, nas := 0, 0, 0, 0
+	waitSent := func(want int) error {
+		deadline := time.Now().Add(20 * time.Second)
+		for {
+			n, errs := loop.Sent()
+			if len(errs) > 0 {
+				return fmt.Errorf("sendOperatorEvent: %v", errs[0])
+			}
+			if n >= want {
+				return nil
+			}
+			select {
+			case err := <-errChan:
+				return fmt.Errorf("runner error: %v", err)
+			default:
+			}
+			if time.Now().After(deadline) {
+				return fmt.Errorf("output stage handled %d of %d placeholders within 20 s", n, want)
+			}
+			time.Sleep(100 * time.Microsecond)
+		}
+	}
 	for _, o := range ops {
 		switch o.K {
 		case "rd":
@@ -999,30 +1072,32 @@ func execLoop(c *hx.Case, ops []opJ) (*hx.Result, error) {
 			terms = append(terms, "PW")
 			placeholders++
 			nw++
+		case "as":
+			nas++
+			if nas > 1 {
+				// everything queued so far is forwarded / stamped before the further assignment is handed over, so
+				// that what the next tick announces does not depend on the timing of the output stage
+				loop.Sync()
+				loop.FlushKeyEvents()
+				if err := waitSent(placeholders); err != nil {
+					return nil, err
+				}
+			}
+			if err := loop.AssignSplits(fmt.Sprintf("split-%d", nas)); err != nil {
+				return nil, err
+			}
+			if nw > 0 && nk > 0 {
+				tags["reassign_after_watermark"] = true
+			}
+			terms = append(terms, "PA")
 		default:
 			return nil, fmt.Errorf("bad op %q for kind loop", o.K)
 		}
 	}
 	loop.Sync()           // the loop has queued every placeholder
 	loop.FlushKeyEvents() // resolve the partially filled key-event batch
-	deadline := time.Now().Add(20 * time.Second)
-	for {
-		n, errs := loop.Sent()
-		if len(errs) > 0 {
-			return nil, fmt.Errorf("sendOperatorEvent: %v", errs[0])
-		}
-		if n >= placeholders {
-			break
-		}
-		select {
-		case err := <-errChan:
-			return nil, fmt.Errorf("runner error: %v", err)
-		default:
-		}
-		if time.Now().After(deadline) {
-			return nil, fmt.Errorf("output stage handled %d of %d placeholders within 20 s", n, placeholders)
-		}
-		time.Sleep(100 * time.Microsecond)
+	if err := waitSent(placeholders); err != nil {
+		return nil, err
 	}
 	// two flushes: the second returns only after every operator goroutine finished delivering the first
 	loop.FlushOperators()
@@ -1199,6 +1274,7 @@ func (h *recHandler) drain() (string, []any) {
 
 func execOp(c *hx.Case, ops []opJ) (*hx.Result, error) {
 	ids := paramInts(c, "ids")
+	ids0 := append([]int{}, ids...) // the first deployment's runners (ids follows redeploys)
 	m := paramInt(c, "m", 1)
 	var srIDs []string
 	for _, i := range ids {
@@ -1215,12 +1291,19 @@ func execOp(c *hx.Case, ops []opJ) (*hx.Result, error) {
 	defer cancel()
 	done := make(chan error, 1)
 	go func() { done <- op.Start(ctx) }()
-	if err := op.HandleDeploy(ctx, &workerpb.DeployOperatorRequest{
-		Operators:       []*jobpb.NodeIdentity{{Id: "op1", Host: "h"}},
-		SourceRunnerIds: srIDs,
-		KeyGroupCount:   16,
-		StorageLocation: "memory:///c11",
-	}, &embedded.RecordingSink{}); err != nil {
+	deploy := func(cur []int) error {
+		var sr []string
+		for _, i := range cur {
+			sr = append(sr, srName(i))
+		}
+		return op.HandleDeploy(ctx, &workerpb.DeployOperatorRequest{
+			Operators:       []*jobpb.NodeIdentity{{Id: "op1", Host: "h"}},
+			SourceRunnerIds: sr,
+			KeyGroupCount:   16,
+			StorageLocation: "memory:///c11",
+		}, &embedded.RecordingSink{})
+	}
+	if err := deploy(ids); err != nil {
 		return nil, err
 	}
 	tags := map[string]bool{fmt.Sprintf("runners_%d", len(ids)): true, fmt.Sprintf("batch_%d", m): true}
@@ -1229,6 +1312,7 @@ func execOp(c *hx.Case, ops []opJ) (*hx.Result, error) {
 	nwm, ncalls := 0, 0
 	senders := map[int]bool{}
 	completed := map[int]bool{}
+	wmAboveEpoch, staleArmed := false, false
 	latest := map[int]time.Time{}
 	for _, i := range ids {
 		latest[i] = time.Unix(0, 0)
@@ -1275,6 +1359,32 @@ func execOp(c *hx.Case, ops []opJ) (*hx.Result, error) {
 					tags["finished_runner_holds_min"] = true
 				}
 			}
+		case "dp":
+			// redeploy of the live operator: no call outstanding (the engine is sequential)
+			if o.IDs != nil {
+				ids = o.IDs
+			}
+			if err := deploy(ids); err != nil {
+				return nil, fmt.Errorf("redeploy: %v", err)
+			}
+			tags["redeploy"] = true
+			if wmAboveEpoch {
+				staleArmed = true // the previous deployment had advanced beyond the epoch
+			}
+			wmAboveEpoch = false
+			completed = map[int]bool{}
+			latest = map[int]time.Time{}
+			for _, i := range ids {
+				latest[i] = time.Unix(0, 0)
+			}
+			terms = append(terms, "ODeploy "+coqNList(ids))
+			sd, rawd := h.drain()
+			if len(rawd) > 0 {
+				return nil, fmt.Errorf("handler called during HandleDeploy")
+			}
+			calls = append(calls, sd)
+			obs = append(obs, rawd)
+			continue
 		case "sc":
 			// only legal while another configured runner stays active (the operator stops itself otherwise)
 			stillActive := 0
@@ -1307,6 +1417,14 @@ func execOp(c *hx.Case, ops []opJ) (*hx.Result, error) {
 		}
 		s, raw := h.drain()
 		ncalls += len(raw)
+		if o.K == "wm" {
+			staleArmed = false
+			if w := op.VerifTimerRegistry().VerifWatermark(); w.After(time.Unix(0, 0)) {
+				wmAboveEpoch = true
+			}
+		} else if staleArmed && len(raw) > 0 {
+			tags["call_after_redeploy_before_first_wm"] = true
+		}
 		if nwm == 0 && len(raw) > 0 {
 			tags["call_before_first_wm"] = true
 		}
@@ -1322,7 +1440,7 @@ func execOp(c *hx.Case, ops []opJ) (*hx.Result, error) {
 	if h.ntimer > 0 {
 		tags["timer_expired"] = true
 	}
-	term := fmt.Sprintf("OpC %s %s %s %s", coqNList(ids), hx.CoqN(uint64(m)), hx.CoqList(terms, "oop"), hx.CoqList(calls, "list ocall"))
+	term := fmt.Sprintf("OpC %s %s %s %s", coqNList(ids0), hx.CoqN(uint64(m)), hx.CoqList(terms, "oop"), hx.CoqList(calls, "list ocall"))
 	return &hx.Result{Term: term, Nontrivial: nwm >= 2 && ncalls >= 1 && (len(senders) >= 2 || h.ntimer > 0), Tags: tagList("op", tags), Observed: obs}, nil
 }
 
